@@ -19,6 +19,7 @@ var (
 	cyrillic   = []rune("АБВГДЕЖЗИЙКЛМНОПРСТУФХЦЧШЩЪЫЬЭЮЯабвгдежзийклмнопрстуфхцчшщъыьэюяЁёЂђЄєІіЇїЉљЊњЋћЎўЏџ")
 	punct      = []rune("!\"#$%&'()*+,-./:;<=>?@[\\]^_`{|}~¡¢£¤¥¦§¨©ª«¬®¯°±²³´µ¶·¸¹º»¼½¾¿–—‘’‚“”„†‡•…‰‹›€™ ")
 	ligatures  = []string{"ffi", "ffl", "ff", "fi", "fl", "ft", "fj", "ﬁ", "ﬂ", "AV", "VA", "To", "Ty", "office", "waffle", "fi ﬁ", "fl ﬂ"}
+	singles    = []rune("ΩÅK;·µ`ÉñüЙё")
 	overTexts  = []string{"a", "b", "X", "Y", "é", "ß", "Ω", "α", "д", "Я", "ffi", "fl", "st", "ct", " ", "-", "…", "—", "1", "x̂", "ﬁ", "A", "e"}
 	outside    = []rune("→✓中ℵ")
 	sizes      = []int{1, 6, 10, 12, 24, 100}
@@ -67,6 +68,9 @@ func genAtom(t *rapid.T) string {
 	case 0, 1, 2:
 		return pick(latinASCII)
 	case 3:
+		if rapid.Bool().Draw(t, "single") {
+			return pick(singles) // characters with a singleton or canonical decomposition
+		}
 		return pick(latinExt)
 	case 4, 5:
 		return pick(greek)
@@ -105,11 +109,30 @@ func genOver(t *rapid.T, nRunes int) []Over {
 			Pos:  rapid.IntRange(0, maxRunes-1).Draw(t, "pos"),
 			Text: rapid.SampledFrom(overTexts).Draw(t, "otext"),
 		})
-		if rapid.IntRange(0, 3).Draw(t, "emptytext") == 0 {
+		switch rapid.IntRange(0, 7).Draw(t, "special") {
+		case 0, 1:
 			res[i].Text = "" // the glyph carries no text
+		case 2, 3:
+			// another spelling of the text of the glyph it lands on
+			res[i].Equiv = rapid.IntRange(1, 3).Draw(t, "equiv")
 		}
 	}
 	return res
+}
+
+// genMode draws a text rendering mode: 0 for half of the runs, else 1-7 with
+// extra weight on 7 (clip only) and 3 (invisible).
+func genMode(t *rapid.T) int {
+	m := rapid.IntRange(0, 19).Draw(t, "mode")
+	switch {
+	case m < 10:
+		return 0
+	case m < 17:
+		return m - 9 // 1..7
+	case m < 19:
+		return 7
+	}
+	return 3
 }
 
 func genHow(t *rapid.T) int {
@@ -203,7 +226,7 @@ func genCase(t *rapid.T) Case {
 		size := rapid.SampledFrom(sizes).Draw(t, "size")
 		for len(rr) > 0 {
 			k := min(fillChunk, len(rr))
-			run := Run{Font: 0, Text: string(rr[:k]), Size: size, How: how}
+			run := Run{Font: 0, Text: string(rr[:k]), Size: size, How: how, Mode: genMode(t)}
 			if rapid.IntRange(0, 3).Draw(t, "fillover") == 0 {
 				run.Over = genOver(t, 4)
 			}
@@ -229,6 +252,7 @@ func genCase(t *rapid.T) Case {
 		run.Text = genText(t)
 		run.Size = rapid.SampledFrom(sizes).Draw(t, "size")
 		run.How = genHow(t)
+		run.Mode = genMode(t)
 		if rapid.IntRange(0, 1).Draw(t, "withover") == 0 {
 			run.Over = genOver(t, len([]rune(run.Text)))
 		}
@@ -302,10 +326,14 @@ func classify(c *Case) (bool, []string) {
 		add(o.ligature, "ligature")
 		add(o.override, "override")
 		add(o.riseChange, "rise-change-inside-run")
+		add(o.modeNot0, "render-mode/other-than-0")
+		add(o.mode7, "render-mode/7-clip")
+		add(o.invisible, "render-mode/3-invisible-not-reported-by-reader")
 		add(o.manyCodes, "codes>64")
 		add(o.exact256, "exactly-256-codes")
 		add(o.notdef, "notdef-glyph")
 		add(o.onlyNotdef, "font-with-only-glyph-0-not-read-back")
+		add(o.canonEquiv, "override/canonically-equivalent-to-implied-text")
 		add(o.emptyText, "glyph-shown-with-empty-text")
 		add(o.onlyEmpty, "glyph-shown-only-with-empty-text")
 		add(o.fallback, "text-by-glyph-name")
